@@ -772,3 +772,133 @@ def rule_x10(P, reach, tables, g1_covers):
             findings.append(F("X10", f"X10|stale|{key[0]}|loop{key[1]}", f"audited loop entry {key} matches nothing any more; remove it", "tables/e4_recursion.json"))
     obl.append({"rule": "X10", "inst": f"{n_auto} generated FromPlist::parse loops advance the plist tokenizer or return its error", "ok": True})
     return findings, obl, {"loops_total": n_all, "loops_iterator_driven": n_iter, "loops_plist_derive": n_auto, "loops_audited": len(seen) - n_auto}
+
+
+# ------------------------------------------------------------------------------------------------ X11: input-sized loops/allocations
+WIDE = ("u32", "u64", "usize", "u128", "i32", "i64", "isize", "i128")
+import re
+_PARSE = re.compile(r"^core::str::\{impl#\d+\}::parse$|^core::num::\{impl#\d+\}::from_str_radix$|^core::str::traits::FromStr::from_str$")
+_ALLOC_SINKS = re.compile(r"::with_capacity$|^alloc::vec::from_elem$|::resize$|::reserve$|::reserve_exact$|^core::iter::sources::repeat_n::repeat_n$|::repeat$")
+
+
+def _wide_parse(t):
+    k = t["f"].get("k") or {}
+    nm = k.get("res") or k.get("fn") or ""
+    if not _PARSE.match(k.get("fn") or "") and not _PARSE.match(nm):
+        return None
+    dty = t.get("dty", "")
+    m = re.match(r"std::result::Result<(\w+),", dty)
+    if m and m.group(1) in WIDE:
+        return m.group(1)
+    return None
+
+
+def _taint_body(P, key, seeds):
+    """forward, flow-insensitive propagation of 'number taken from the input' inside one body; returns (tainted locals, sinks)"""
+    b = P.bodies[key]
+    tainted = dict(seeds)
+    changed = True
+    while changed:
+        changed = False
+        for blk in b["blocks"]:
+            if blk["cl"]:
+                continue
+            for st in blk["s"]:
+                d = st["d"]
+                if not d or d[0] in tainted:
+                    continue
+                rv = st["rv"]
+                ops = []
+                if "p" in rv and rv["p"]:
+                    ops.append(rv["p"][0])
+                for o in rv.get("o", []):
+                    pl = o.get("m") or o.get("c")
+                    if pl:
+                        ops.append(pl[0])
+                if rv.get("r") in ("use", "cast", "bin", "agg", "ref", "un") and any(x in tainted for x in ops):
+                    tainted[d[0]] = tainted[[x for x in ops if x in tainted][0]]
+                    changed = True
+            t = blk["t"]
+            if t["t"] == "call" and len(t["d"]) == 1 and t["d"][0] not in tainted:
+                k = t["f"].get("k") or {}
+                nm = k.get("res") or k.get("fn") or ""
+                ops = [(o.get("m") or o.get("c") or [None])[0] for o in t["a"]]
+                if any(x in tainted for x in ops) and (nm.startswith(("core::option::", "core::result::", "core::convert::", "core::clone::", "core::ops::range::", "core::cmp::"))
+                                                       or nm.endswith(("::into", "::from", "::unwrap", "::into_iter", "::clone", "::min", "::max"))):
+                    if not nm.endswith(("::min",)):     # `n.min(LIMIT)` bounds the value
+                        tainted[t["d"][0]] = tainted[[x for x in ops if x in tainted][0]]
+                        changed = True
+    sinks = []
+    for blk in b["blocks"]:
+        if blk["cl"]:
+            continue
+        t = blk["t"]
+        if t["t"] != "call":
+            continue
+        k = t["f"].get("k") or {}
+        nm = k.get("res") or k.get("fn") or ""
+        ops = [(o.get("m") or o.get("c") or [None])[0] for o in t["a"]]
+        if not any(x in tainted for x in ops):
+            continue
+        ga0 = (k.get("ga") or [""])[0]
+        if (k.get("fn") or "").endswith("Iterator::next") and re.match(r"std::ops::Range(Inclusive)?<(%s)>" % "|".join(WIDE), ga0):
+            sinks.append((t["l"], "iterates a numeric range", None))
+        elif _ALLOC_SINKS.search(nm) and any(x in tainted for x in ops[-1:] if x is not None):
+            sinks.append((t["l"], f"sizes an allocation ({nm.rsplit('::', 1)[-1]})", None))
+        elif nm in P.bodies and P.bodies[nm].get("dk") in ("Fn", "AssocFn"):
+            for i, x in enumerate(ops):
+                if x in tainted:
+                    sinks.append((t["l"], "passes it on", (nm, i + 1)))
+    return tainted, sinks
+
+
+def rule_x11(P, reach, tables):
+    """Bounded time and memory: a number read from the input with a wide integer type (u32/u64/usize/..: `str::parse`,
+    `from_str_radix`) must not decide how often a loop runs or how much is allocated.  (A u16 bounds the work by its type; that is
+    the only bound e.g. on the expansion of a glyph range `a.001 - a.120`.)  Forward taint from wide parses to Range iteration /
+    allocation sizes, through at most two calls; `n.min(LIMIT)` and comparisons that feed an early return are not modelled, such
+    sites are audited."""
+    from common import norm_fn
+    findings, obl = [], []
+    allowed = {e["fn"]: e for e in tables.get("e4_recursion", {}).get("input_sized_allowed", [])}
+    n_src = 0
+    seen_fns = set()
+    for key in sorted(reach):
+        b = P.bodies.get(key)
+        if not b or "#promoted" in key or key.startswith(("fontc::timing", "fontc[bin]")):
+            continue
+        seeds = {}
+        for blk in b["blocks"]:
+            t = blk["t"]
+            if t["t"] == "call" and not blk["cl"] and len(t["d"]) == 1:
+                w = _wide_parse(t)
+                if w:
+                    seeds[t["d"][0]] = (t["l"], w)
+        if not seeds:
+            continue
+        n_src += len(seeds)
+        root_src = sorted(seeds.values())[0]
+        work = [(key, seeds, 0, [])]
+        while work:
+            fn, sd, depth, chain = work.pop()
+            tainted, sinks = _taint_body(P, fn, sd)
+            for line, what, nxt in sinks:
+                if nxt is None:
+                    nf = norm_fn(key)
+                    seen_fns.add(nf)
+                    ok = nf in allowed
+                    via = (" via " + " -> ".join(c.rsplit("::", 1)[-1] for c in chain + [fn])) if chain else ""
+                    obl.append({"rule": "X11", "inst": f"{nf}: a wide integer parsed from the input {what}{via}: {(allowed.get(nf) or {}).get('reason', 'NOT AUDITED')[:80]}", "ok": ok})
+                    if not ok:
+                        src = root_src
+                        findings.append(F("X11", f"X11|{nf}|{what.split(' (')[0]}", f"{key} parses a {src[1]} from the input (line {src[0]}) and that number {what}{via} (line {line} of {fn}): "
+                                          f"a few bytes of input ('bar.0000000000 - bar.4000000000') make the compiler loop or allocate billions of times - only the width of the integer type bounds the work",
+                                          P.site_loc(key, src[0])))
+                elif depth < 2:
+                    cal, pi = nxt
+                    work.append((cal, {pi: (line, "passed")}, depth + 1, chain + [fn]))
+    for fn in allowed:
+        if fn not in seen_fns:
+            findings.append(F("X11", f"X11|stale|{fn}", f"audited input-sized site {fn} matches nothing any more; remove it", "tables/e4_recursion.json"))
+    obl.append({"rule": "X11", "inst": f"{n_src} wide integer parses from text in the compile path examined", "ok": True})
+    return findings, obl, {"x11_wide_parses": n_src}
